@@ -1,4 +1,5 @@
 import TFV.Properties.BinOps
+import TFV.Properties.Runs
 #print axioms TFV.BinOps.C06_cross_parentage
 #print axioms TFV.BinOps.C06_cross_binary
 #print axioms TFV.BinOps.C06_empty
@@ -14,3 +15,5 @@ import TFV.Properties.BinOps
 #print axioms TFV.BinOps.C06_rateOf
 #print axioms TFV.BinOps.C06_newIndivid_closed
 #print axioms TFV.BinOps.C06_shaga_closed
+#print axioms TFV.Runs.C06_run_binary
+#print axioms TFV.Runs.C06_run_binary_shaga
